@@ -80,7 +80,9 @@ class LockstepLocalBackend(LocalBackend):
                 self._command(t, {"op": "exit"}, wait_exit=True)
                 w.state = "ok"
             elif a == "W_Fail":
-                self._command(t, {"op": "fail"}, wait_exit=True)
+                # every second crash is a death by signal (negative return code) instead of exit code 1
+                self.nfail = getattr(self, "nfail", 0) + 1
+                self._command(t, {"op": "fail", "how": "signal" if self.nfail % 2 == 1 else "exit"}, wait_exit=True)
                 w.state = "fail"
             else:
                 continue   # stops from outside the tuner are not part of this binding
